@@ -29,14 +29,21 @@ def sh(cmd, cwd=None, env=None, timeout=3600):
 def main():
     ap = argparse.ArgumentParser()
     ap.add_argument("seed")
-    ap.add_argument("prop")
-    ap.add_argument("patch")
-    ap.add_argument("demo")
+    ap.add_argument("prop", nargs="?")
+    ap.add_argument("patch", nargs="?")
+    ap.add_argument("demo", nargs="?")
     ap.add_argument("--checks", default="")
     ap.add_argument("--needs", default="")
     ap.add_argument("--tier", default="quick")
     ap.add_argument("--keep-anyway", action="store_true")
     a = ap.parse_args()
+    stored = os.path.join(VERIF, "seeded", a.seed)
+    if a.prop is None:  # re-evaluate a stored seed
+        old = json.load(open(os.path.join(stored, "meta.json")))
+        a.prop = old["breaks_property"]
+        a.patch, a.demo = os.path.join(stored, "patch.diff"), os.path.join(stored, "demo.py")
+        a.needs = a.needs or old.get("needs_to_manifest", "")
+        a.checks = a.checks or ",".join(old.get("checks", {}))
     checks = [c for c in (a.checks or a.prop).split(",") if c]
     wt = "/tmp/seedwt_%s_%d" % (a.seed, os.getpid())
     meta = {"seed": a.seed, "breaks_property": a.prop, "needs_to_manifest": a.needs, "ran": [], "checks": {}}
@@ -88,8 +95,16 @@ def finish(a, meta, keep):
     if keep:
         d = os.path.join(VERIF, "seeded", a.seed)
         os.makedirs(d, exist_ok=True)
-        shutil.copy(a.patch, os.path.join(d, "patch.diff"))
-        shutil.copy(a.demo, os.path.join(d, "demo.py"))
+        mp = os.path.join(d, "meta.json")
+        if os.path.exists(mp):
+            old = json.load(open(mp))
+            hist = old.get("history", [])
+            hist.append({"verdict": old.get("verdict"), "detected_by": old.get("detected_by"), "at": old.get("at")})
+            meta["history"] = hist
+        meta["at"] = time.strftime("%Y-%m-%d %H:%M")
+        for src, name in ((a.patch, "patch.diff"), (a.demo, "demo.py")):
+            if os.path.abspath(src) != os.path.join(d, name):
+                shutil.copy(src, os.path.join(d, name))
         with open(os.path.join(d, "meta.json"), "w") as f:
             json.dump(meta, f, indent=1)
     print("   verdict:", meta.get("verdict"))
